@@ -9,6 +9,8 @@
 (* w(5y+x)+z).  Bit strings are tuples of 0/1, first bit first.  r is the   *)
 (* rate (0 < r < b), the capacity is c = b - r.                             *)
 (*                                                                          *)
+(*   Tup(f, n)                  a function with domain 1..n as a concrete   *)
+(*                              tuple (used instead of deep recursions)     *)
 (*   BitsToLanes(w, S)          state bits -> 25 lanes of module KeccakF    *)
 (*   LanesToBits(w, A)          25 lanes -> state bits                      *)
 (*   FBits(w, S)                KECCAK-f[25w] on state bits                 *)
